@@ -12,7 +12,8 @@ def run(tier, seed):
                 "built declaratively from the contents, db append-only and content-addressed (=> earlier roots stay readable), closure complete; "
                 "in every state get/[]/exists/in for every probe")
     rep.assumptions = ["binary universes of DESIGN §4 (fixed and variable length keys, branch on a byte boundary)", "oracle mcx/ref/bintrie.py"]
-    plans = [dict(universe="B8", values=("a", "bb"), forms=("m", "i"))]
+    plans = [dict(universe="B8", values=("a", "bb"), forms=("m", "i")), dict(universe="BLK", values=("a", "bb")), dict(universe="BC", values=("a",)),
+             dict(universe="BXL", values=("a", "bb"))]
     if tier == "thorough":
         plans = [dict(universe="B10", values=("a", "bb")), dict(universe="B8", values=("a", "bb", "c33"), forms=("m", "i")),
                  dict(universe="B4L", values=("a", "bb", "c33"))]
